@@ -85,6 +85,7 @@ type world struct {
 	cbd     *asm.Contract // CBD: deployed by the cases themselves
 	cbdHash util.Uint160
 	csDef   []callerSpec // their permission specs (same order)
+	csBare  [][]byte     // manifest JSON of every caller without any permission for the family (for ContractManagement.update)
 
 	nonce uint32
 
